@@ -185,11 +185,12 @@ def warnings(stderr_text):
 
 # --------------------------------------------------------------------------- running
 
-def make_report(scratch, group_args, roots, fmt="default", cwd=None, env_extra=None):
-    args = ["group"] + list(group_args) + list(roots)
+def make_report(scratch, group_args, roots, fmt="default", cwd=None, env_extra=None, stdin_roots=False):
+    args = ["group"] + list(group_args) + (["--stdin"] if stdin_roots else list(roots))
     if fmt == "json":
         args += ["-f", "json"]
-    rc, out, err, to = C.fclones(args, scratch, cwd=cwd, env_extra=env_extra)
+    rc, out, err, to = C.fclones(args, scratch, cwd=cwd, env_extra=env_extra,
+                                 stdin=("\n".join(roots) + "\n").encode() if stdin_roots else b"")
     if to or rc != 0:
         raise C.MachineryError("group failed while preparing a report: rc=%s %s" % (rc, err[-400:]))
     return out
